@@ -4,7 +4,8 @@ import FpgoVerif.Model.C13Ask
     Case lines
     * `ask mcap=<k> n=<n> spec=<K><rcap>,…: op ; op ; …`   directed schedule.  Asker `i` is described by the i-th
       spec item: kind `O` AskOnce, `T` AskOnceWithTimeout with a timeout that never fires within the case,
-      `S` AskOnceWithTimeout with a short timeout (fires unless the reply arrives first), `C` AskChannel + a
+      `S` AskOnceWithTimeout with a short timeout (fires unless the reply arrives first) — likewise `Z` timeout 0,
+      `N` a negative timeout, `Y` a tiny one (1 µs): to the model these are all "the timer fires", `C` AskChannel + a
       receive by the caller; `<rcap>` = capacity of the reply channel, optionally followed by the constructor (`n` New, `g` AskNewGenerics,
       `o` NewByOptions, `p` AskNewByOptionsGenerics; `o`/`p` with `rcap` 0 = a caller-made UNBUFFERED channel).
       The actor parks before every reply (`ask.reply.beforeSend`); `S` askers park when their timer fired
@@ -134,7 +135,7 @@ def parseSpec (item : String) : Kind × Nat × Bool :=
   match k with
   | 'O' => (.once, rc, false)
   | 'C' => (.channel, rc, false)
-  | 'S' => (.timeout, rc, true)
+  | 'S' | 'Z' | 'N' | 'Y' => (.timeout, rc, true)
   | _ => (.timeout, rc, false)
 
 def schedInit (toks : List String) : Sched :=
